@@ -1399,6 +1399,8 @@ class Interp(object):
         return self.elem(it, idx)
 
     def elem(self, seq, idx):
+        if isinstance(seq, tuple) and len(seq) == 2 and seq[0] == "zip" and isinstance(seq[1], tuple):
+            return tuple(self.elem(x, idx) for x in seq[1])         # item k of zip(a, b, ...) is (a[k], b[k], ...)
         if isinstance(seq, Rat):
             return Rat.atom(Fn("getitem", (seq, idx)))
         if isinstance(seq, (list, tuple)):
@@ -3181,6 +3183,18 @@ def _pinv(I, a, k, e, env, ctx):
     rc = a[1] if len(a) > 1 else k.get("rcond", k.get("rtol", None))
     extra = tuple(("kw:" + kk, _vk(v)) for kk, v in sorted(k.items()) if kk not in ("rcond", "rtol"))
     return Rat.atom(Fn("pinv", (a[0], rc) + extra))
+
+
+@ext("scipy.linalg.pinvh")
+def _pinvh(I, a, k, e, env, ctx):
+    # pinvh(a, atol=None, rtol=None, ...): the first cut-off is ABSOLUTE (eigenvalues below atol + rtol*max are dropped);
+    # with a relative cut-off only it is pinv(a, rcond) of a symmetric matrix
+    atol = a[1] if len(a) > 1 else k.get("atol")
+    rtol = a[2] if len(a) > 2 else k.get("rtol")
+    extra = tuple(("kw:" + kk, _vk(v)) for kk, v in sorted(k.items()) if kk not in ("atol", "rtol", "check_finite", "lower"))
+    if atol is None or (isinstance(atol, Rat) and atol.is_zero()):
+        return Rat.atom(Fn("pinv", (a[0], rtol) + extra))
+    return Rat.atom(Fn("pinv_abs", (a[0], atol, rtol) + extra))
 
 
 @ext("numpy.linalg.inv", "scipy.linalg.inv")
